@@ -3,6 +3,7 @@ package main
 // C18 — activation follows confirmed epochs; the registry is complete and correctly bound.
 
 import (
+	"regexp"
 	"fmt"
 	"go/token"
 	"go/types"
@@ -473,24 +474,74 @@ func c18r2(c *Ctx) {
 				}
 				nstores++
 				construct := "store ." + epochField + " = " + e.Term(st.Val) + " in " + fn.Name()
-				r, isCtor := ctorOf[fn]
 				par, isPar := st.Val.(*ssa.Parameter)
-				if !isCtor || !isPar {
+				// the store sits in a registered constructor, or in a helper that only such constructors call with their own
+				// epoch parameter (`newBaseEnabled(name, activationEpoch)`)
+				type feed struct {
+					r   Registration
+					idx int
+				}
+				var feeds []feed
+				okFeeds := isPar
+				var resolve func(f *ssa.Function, q *ssa.Parameter, depth int)
+				resolve = func(f *ssa.Function, q *ssa.Parameter, depth int) {
+					idx := -1
+					for i, x := range f.Params {
+						if x == q {
+							idx = i
+						}
+					}
+					if r, isCtor := ctorOf[f]; isCtor && idx >= 0 {
+						feeds = append(feeds, feed{r, idx})
+						return
+					}
+					callers := c.P.Callers[f]
+					if idx < 0 || depth > 2 || len(callers) == 0 {
+						okFeeds = false
+						return
+					}
+					for _, cs := range callers {
+						args := cs.Common().Args
+						if idx >= len(args) {
+							okFeeds = false
+							return
+						}
+						cp, isP := args[idx].(*ssa.Parameter)
+						if !isP {
+							okFeeds = false
+							return
+						}
+						resolve(cs.Parent(), cp, depth+1)
+					}
+				}
+				if isPar {
+					resolve(fn, par, 0)
+				}
+				if !okFeeds || len(feeds) == 0 {
 					c.Fail(rule, "violation", FuncName(fn), construct, c.P.InstrPos(st), "the activation epoch is set outside a registered constructor or not from its parameter")
 					continue
 				}
-				idx := -1
-				for i, q := range fn.Params {
-					if q == par {
-						idx = i
+				for _, fd := range feeds {
+					fed := fd.r.ArgTerms[fd.idx]
+					src := factoryFieldSource(c.P, strings.TrimPrefix(fed, "*"+facRecv+"."))
+					cons := construct
+					if len(feeds) > 1 || fd.r.Ctor != fn {
+						cons += " (for " + fd.r.Ctor.Name() + ")"
 					}
-				}
-				fed := r.ArgTerms[idx]
-				src := factoryFieldSource(c.P, strings.TrimPrefix(fed, "*"+facRecv+"."))
-				if strings.HasPrefix(fed, "*"+facRecv+".") && strings.HasSuffix(src, ".ESDTNFTImprovementV1ActivationEpoch") {
-					c.OK(rule, FuncName(fn), construct, c.P.InstrPos(st), "fed by the factory with "+fed+" <- "+src)
-				} else {
-					c.Fail(rule, "violation", FuncName(fn), construct, c.P.InstrPos(st), "the constructor's activation epoch is fed with "+fed+" (<- "+src+"), not the configured ESDTNFTImprovementV1ActivationEpoch")
+					// a table of epochs kept by the factory and asked by the protocol name: the row of that name
+					if m := lookupTermRe.FindStringSubmatch(fed); m != nil && m[1] == facRecv {
+						if row, ok := factoryMapRow(c.P, m[2], m[3]); ok {
+							src = row
+							fed = "*" + facRecv + "." + m[2] + "[" + m[3] + "]"
+						} else {
+							src = "no row " + m[3] + " in the table " + m[2] + " (the lookup yields 0: active from genesis)"
+						}
+					}
+					if strings.HasPrefix(fed, "*"+facRecv+".") && strings.HasSuffix(src, ".ESDTNFTImprovementV1ActivationEpoch") {
+						c.OK(rule, FuncName(fn), cons, c.P.InstrPos(st), "fed by the factory with "+fed+" <- "+src)
+					} else {
+						c.Fail(rule, "violation", FuncName(fn), cons, c.P.InstrPos(st), "the constructor's activation epoch is fed with "+fed+" (<- "+src+"), not the configured ESDTNFTImprovementV1ActivationEpoch")
+					}
 				}
 			}
 		}
@@ -624,6 +675,74 @@ func sameBase(t types.Type, base types.Type) bool {
 }
 
 // factoryFieldSource: the term stored into the factory's field `field` by its constructor (single store expected).
+var lookupTermRe = regexp.MustCompile(`^lookup\(\*(P:[A-Za-z_0-9]+)\.([A-Za-z_0-9]+),("[^"]*")\)$`)
+
+// factoryMapRow: the factory field is assigned, once, a map built as a literal (directly or by a module function that returns
+// the literal); the value of the row with the given constant key.
+func factoryMapRow(p *Prog, field, quotedKey string) (string, bool) {
+	fac := p.FactoryFunc()
+	if fac == nil {
+		return "", false
+	}
+	var vals []ssa.Value
+	var envs []*Env
+	for _, fn := range p.Funcs {
+		if !p.InPkgs(fn, "builtInFunctions") {
+			continue
+		}
+		for _, b := range fn.Blocks {
+			for _, in := range b.Instrs {
+				if st, ok := in.(*ssa.Store); ok {
+					if fa, ok := st.Addr.(*ssa.FieldAddr); ok && fieldName(fa.X.Type(), fa.Field) == field && sameBase(fa.X.Type(), fac.Signature.Recv().Type()) {
+						vals = append(vals, st.Val)
+						envs = append(envs, p.Env(fn))
+					}
+				}
+			}
+		}
+	}
+	if len(vals) != 1 {
+		return "", false
+	}
+	v, e := vals[0], envs[0]
+	if call, ok := v.(*ssa.Call); ok {
+		sc := call.Call.StaticCallee()
+		if sc == nil || len(sc.Blocks) == 0 || sc.Pkg == nil || !strings.HasPrefix(sc.Pkg.Pkg.Path(), modPath) {
+			return "", false
+		}
+		rets := returnsOf(sc)
+		if len(rets) != 1 || len(rets[0].Results) != 1 {
+			return "", false
+		}
+		e = e.Sub(call, sc)
+		v = rets[0].Results[0]
+	}
+	mk, ok := v.(*ssa.MakeMap)
+	if !ok || mk.Referrers() == nil {
+		return "", false
+	}
+	row, n := "", 0
+	for _, ref := range *mk.Referrers() {
+		switch x := ref.(type) {
+		case *ssa.MapUpdate:
+			k, isK := x.Key.(*ssa.Const)
+			if !isK {
+				return "", false // a row whose name is computed: the table is not a literal
+			}
+			if ks, ok := constStringVal(k.Value); ok && fmt.Sprintf("%q", ks) == quotedKey {
+				row = e.Term(x.Value)
+				n++
+			}
+		case *ssa.Return, *ssa.Store:
+		default:
+			if _, isDbg := ref.(*ssa.DebugRef); !isDbg {
+				return "", false // the map is handed on or changed elsewhere
+			}
+		}
+	}
+	return row, n == 1
+}
+
 func factoryFieldSource(p *Prog, field string) string {
 	fac := p.FactoryFunc()
 	if fac == nil {
